@@ -152,6 +152,13 @@ public :
     // -----------------------------------------------------------------------
     bool emitErrorWillThrowException(const XMLErrs::Codes toEmit);
     void emitError(const XMLErrs::Codes toEmit);
+
+    // Counts one entity expansion against the SecurityManager's entity
+    // expansion limit (if a SecurityManager is installed) and emits
+    // EntityExpansionLimitExceeded when the limit is exceeded. Used by the
+    // DTD scanner for parameter entity references and for general entity
+    // references in default attribute values.
+    void checkEntityExpansionLimit();
     void emitError
     (
         const   XMLErrs::Codes    toEmit
